@@ -296,4 +296,300 @@ theorem roundF32_mono (x y : Rat) (hxy : x ≤ y) : roundF32 x ≤ roundF32 y :=
       have := roundF32_mono_nonneg (-y) (-x) (by linarith) (by linarith)
       linarith
 
+/-! ### integers up to 2^24 are exactly representable -/
+
+theorem roundF32_natCast (n : Nat) (hn : n ≤ 16777216) : roundF32 (n : ℚ) = (n : ℚ) := by
+  rcases Nat.eq_zero_or_pos n with h0 | hpos
+  · subst h0; simp [roundF32_zero]
+  · have hx : (0 : ℚ) < (n : ℚ) := by exact_mod_cast hpos
+    rw [roundF32_pos _ hx]
+    set e := floorLog2 (n : ℚ) with he
+    obtain ⟨s1, s2⟩ := floorLog2_spec (n : ℚ) hx
+    rw [← he] at s1 s2
+    -- 0 ≤ e ≤ 24
+    have he0 : 0 ≤ e := by
+      by_contra hc
+      have : pow2 (e + 1) ≤ pow2 0 := pow2_mono (by omega)
+      have h1 : pow2 0 = 1 := by rw [pow2_eq_zpow]; simp
+      have : (n : ℚ) < 1 := by linarith
+      have : n < 1 := by exact_mod_cast this
+      omega
+    have he24 : e ≤ 24 := by
+      by_contra hc
+      have : pow2 25 ≤ pow2 e := pow2_mono (by omega)
+      have h25 : pow2 25 = 33554432 := by rw [pow2_eq_zpow]; norm_num
+      have : (33554432 : ℚ) ≤ (n : ℚ) := by linarith
+      have : 33554432 ≤ n := by exact_mod_cast this
+      omega
+    have hq : qexp e = e - 23 := by unfold qexp; rw [if_neg (by omega)]
+    rw [hq]
+    have hqpos := pow2_pos (e - 23)
+    -- n / 2^(e-23) is an integer
+    have hint : ∃ m : Int, (n : ℚ) / pow2 (e - 23) = (m : ℚ) := by
+      by_cases h24 : e = 24
+      · -- then n = 2^24
+        have h1 : pow2 24 = 16777216 := by rw [pow2_eq_zpow]; norm_num
+        rw [h24] at s1
+        have : (16777216 : ℚ) ≤ (n : ℚ) := by linarith
+        have hn' : 16777216 ≤ n := by exact_mod_cast this
+        have hneq : n = 16777216 := by omega
+        refine ⟨8388608, ?_⟩
+        rw [h24, hneq]
+        have : pow2 (24 - 23) = 2 := by rw [pow2_eq_zpow]; norm_num
+        rw [this]; norm_num
+      · have hk : 0 ≤ 23 - e := by omega
+        obtain ⟨k, hk'⟩ := Int.eq_ofNat_of_zero_le hk
+        refine ⟨(n : Int) * ((2 ^ k : Nat) : Int), ?_⟩
+        rw [div_eq_iff (ne_of_gt hqpos)]
+        push_cast
+        have h2 : ((2 : ℚ) ^ k) = pow2 (23 - e) := by rw [hk', pow2_nat]; simp
+        rw [h2, mul_assoc, ← pow2_add]
+        have : 23 - e + (e - 23) = 0 := by ring
+        rw [this]
+        have : pow2 0 = 1 := by rw [pow2_eq_zpow]; simp
+        rw [this]; ring
+    obtain ⟨m, hm⟩ := hint
+    rw [hm, rhe_int, ← hm]
+    field_simp
+
+theorem roundF32_intCast (n : Int) (hn : n.natAbs ≤ 16777216) : roundF32 (n : ℚ) = (n : ℚ) := by
+  rcases le_or_gt 0 n with h | h
+  · obtain ⟨k, rfl⟩ := Int.eq_ofNat_of_zero_le h
+    have := roundF32_natCast k (by simpa using hn)
+    simpa using this
+  · have hneg : (n : ℚ) < 0 := by exact_mod_cast h
+    rw [roundF32_neg _ hneg]
+    obtain ⟨k, hk⟩ := Int.exists_eq_neg_ofNat (le_of_lt h)
+    subst hk
+    have := roundF32_natCast k (by simpa using hn)
+    simp only [Int.cast_neg, Int.cast_natCast, neg_neg]
+    rw [this]
+
+/-- **flooring a correctly rounded quotient is within one unit of the exact quotient**, as long as the integers
+around it are representable (|r| < 2^24): the basis of "every stored coordinate is within one quantum" -/
+theorem floor_round_within_one (r : Rat) (hr : |r| ≤ 16777215) :
+    ((roundF32 r).floor : ℚ) ≤ r + 1 ∧ r - 1 < ((roundF32 r).floor : ℚ) ∧
+      r.floor ≤ (roundF32 r).floor ∧ (roundF32 r).floor ≤ r.floor + 1 := by
+  have hfl1 : (r.floor : ℚ) ≤ r := Rat.floor_le r
+  have hfl2 : r < (r.floor : ℚ) + 1 := by
+    have := Rat.lt_floor_add_one r
+    push_cast at this
+    exact this
+  have habs := abs_le.mp hr
+  have hb1 : (r.floor).natAbs ≤ 16777216 := by
+    have h1 : (-16777216 : ℚ) ≤ (r.floor : ℚ) := by linarith
+    have h2 : (r.floor : ℚ) ≤ 16777215 := by linarith
+    have h1' : (-16777216 : Int) ≤ r.floor := by exact_mod_cast h1
+    have h2' : r.floor ≤ (16777215 : Int) := by exact_mod_cast h2
+    omega
+  have hb2 : (r.floor + 1).natAbs ≤ 16777216 := by
+    have h1 : (-16777216 : ℚ) ≤ (r.floor : ℚ) := by linarith
+    have h2 : (r.floor : ℚ) ≤ 16777215 := by linarith
+    have h1' : (-16777216 : Int) ≤ r.floor := by exact_mod_cast h1
+    have h2' : r.floor ≤ (16777215 : Int) := by exact_mod_cast h2
+    omega
+  -- monotonicity and exactness on the neighbouring integers
+  have hlo : (r.floor : ℚ) ≤ roundF32 r := by
+    have := roundF32_mono _ _ hfl1
+    rwa [roundF32_intCast _ hb1] at this
+  have hhi : roundF32 r ≤ ((r.floor + 1 : Int) : ℚ) := by
+    have := roundF32_mono r ((r.floor + 1 : Int) : ℚ) (by push_cast; linarith)
+    rwa [roundF32_intCast _ hb2] at this
+  have h3 : r.floor ≤ (roundF32 r).floor := Rat.le_floor_iff.mpr hlo
+  have h4 : (roundF32 r).floor ≤ r.floor + 1 := by
+    have : ((roundF32 r).floor : ℚ) ≤ ((r.floor + 1 : Int) : ℚ) := le_trans (Rat.floor_le _) hhi
+    exact_mod_cast this
+  refine ⟨?_, ?_, h3, h4⟩
+  · have : ((roundF32 r).floor : ℚ) ≤ (r.floor : ℚ) + 1 := by exact_mod_cast h4
+    linarith
+  · have : (r.floor : ℚ) ≤ ((roundF32 r).floor : ℚ) := by exact_mod_cast h3
+    linarith
+
+/-! ### representable values -/
+
+/-- `x` is a binary32 value of the model (no overflow bound is imposed) -/
+def Repr (x : Rat) : Prop := roundF32 x = x
+
+theorem repr_zero : Repr 0 := roundF32_zero
+
+theorem repr_neg {x : Rat} (h : Repr x) : Repr (-x) := by
+  unfold Repr at *
+  rcases lt_trichotomy x 0 with hx | hx | hx
+  · have := roundF32_neg x hx
+    rw [h] at this
+    linarith
+  · subst hx; simp [roundF32_zero]
+  · have hneg : -x < 0 := by linarith
+    rw [roundF32_neg (-x) hneg, neg_neg, h]
+
+theorem floorLog2_pow2 (k : Int) : floorLog2 (pow2 k) = k :=
+  floorLog2_unique _ k (le_refl _) (pow2_lt (by omega))
+
+/-- a positive integer multiple of `2^k` is a fixed point when `2^k` is at least the quantum of its binade -/
+theorem repr_of_multiple (n : Int) (k : Int) (hn : 0 < n) (hk : qexp (floorLog2 ((n : ℚ) * pow2 k)) ≤ k) :
+    Repr ((n : ℚ) * pow2 k) := by
+  have hx : (0 : ℚ) < (n : ℚ) * pow2 k := mul_pos (by exact_mod_cast hn) (pow2_pos k)
+  unfold Repr
+  rw [roundF32_pos _ hx]
+  set q := qexp (floorLog2 ((n : ℚ) * pow2 k)) with hq
+  have hd : 0 ≤ k - q := by omega
+  obtain ⟨j, hj⟩ := Int.eq_ofNat_of_zero_le hd
+  have hint : (n : ℚ) * pow2 k / pow2 q = ((n * ((2 ^ j : Nat) : Int) : Int) : ℚ) := by
+    rw [div_eq_iff (ne_of_gt (pow2_pos q))]
+    push_cast
+    have h2 : ((2 : ℚ) ^ j) = pow2 (k - q) := by rw [hj, pow2_nat]; simp
+    rw [h2, mul_assoc, ← pow2_add]
+    congr 2; ring
+  rw [hint, rhe_int, ← hint]
+  exact div_mul_cancel₀ _ (ne_of_gt (pow2_pos q))
+
+theorem qexp_ge (e : Int) : -149 ≤ qexp e := by unfold qexp; split <;> omega
+theorem qexp_succ_le (e : Int) : qexp (e + 1) ≤ qexp e + 1 := by unfold qexp; split <;> split <;> omega
+
+theorem repr_pow2 (k : Int) (hk : -149 ≤ k) : Repr (pow2 k) := by
+  have := repr_of_multiple 1 k (by norm_num) (by
+    simp only [Int.cast_one, one_mul]
+    rw [floorLog2_pow2]
+    unfold qexp; split <;> omega)
+  simpa using this
+
+/-- **rounding is idempotent** (positive arguments) -/
+theorem repr_round_pos (x : Rat) (hx : 0 < x) : Repr (roundF32 x) := by
+  by_cases hr0 : roundF32 x = 0
+  · rw [hr0]; exact repr_zero
+  · have hrpos : 0 < roundF32 x := lt_of_le_of_ne (roundF32_nonneg x (le_of_lt hx)) (Ne.symm hr0)
+    have hub := roundF32_le_next x hx
+    rw [roundF32_pos x hx] at hrpos hub ⊢
+    set e := floorLog2 x with he
+    set q := qexp e with hq
+    set n := roundHalfEven (x / pow2 q) with hn
+    have hqpos := pow2_pos q
+    have hnpos : 0 < n := by
+      by_contra hc
+      have : (n : ℚ) ≤ 0 := by exact_mod_cast (not_lt.mp hc)
+      have : (n : ℚ) * pow2 q ≤ 0 := mul_nonpos_of_nonpos_of_nonneg this (le_of_lt hqpos)
+      linarith
+    obtain ⟨s1, s2⟩ := floorLog2_spec _ hrpos
+    by_cases hcase : floorLog2 ((n : ℚ) * pow2 q) ≤ e
+    · exact repr_of_multiple n q hnpos (qexp_mono hcase)
+    · -- the result left the binade: it is exactly the power of two above
+      have he' : e + 1 ≤ floorLog2 ((n : ℚ) * pow2 q) := by omega
+      have heq : (n : ℚ) * pow2 q = pow2 (max (e + 1) q) := by
+        apply le_antisymm hub
+        rcases le_total (e + 1) q with hm | hm
+        · rw [max_eq_right hm]
+          have : (1 : ℚ) ≤ (n : ℚ) := by exact_mod_cast hnpos
+          calc pow2 q = 1 * pow2 q := by ring
+            _ ≤ (n : ℚ) * pow2 q := mul_le_mul_of_nonneg_right this (le_of_lt hqpos)
+        · rw [max_eq_left hm]
+          exact le_trans (pow2_mono he') s1
+      rw [heq]
+      apply repr_pow2
+      have := qexp_ge e
+      omega
+
+/-- **rounding is idempotent**: the result of `roundF32` is a binary32 value -/
+theorem repr_round (x : Rat) : Repr (roundF32 x) := by
+  rcases lt_trichotomy x 0 with hx | hx | hx
+  · rw [roundF32_neg x hx]
+    exact repr_neg (repr_round_pos (-x) (by linarith))
+  · subst hx; rw [roundF32_zero]; exact repr_zero
+  · exact repr_round_pos x hx
+
+/-- doubling a binary32 value gives a binary32 value (no overflow in the model) -/
+theorem repr_two_mul {a : Rat} (h : Repr a) : Repr (2 * a) := by
+  rcases lt_trichotomy a 0 with ha | ha | ha
+  · have hn := repr_neg h
+    have hpos : 0 < -a := by linarith
+    -- positive case applied to -a
+    have key : ∀ b : Rat, 0 < b → Repr b → Repr (2 * b) := by
+      intro b hb hrb
+      have hb' := hrb
+      unfold Repr at hb'
+      rw [roundF32_pos b hb] at hb'
+      set e := floorLog2 b with he
+      set q := qexp e with hq
+      set n := roundHalfEven (b / pow2 q) with hn'
+      have hqpos := pow2_pos q
+      have hnpos : 0 < n := by
+        by_contra hc
+        have : (n : ℚ) ≤ 0 := by exact_mod_cast (not_lt.mp hc)
+        have : (n : ℚ) * pow2 q ≤ 0 := mul_nonpos_of_nonpos_of_nonneg this (le_of_lt hqpos)
+        linarith
+      have h2 : 2 * b = (n : ℚ) * pow2 (q + 1) := by
+        rw [pow2_add]
+        have : pow2 1 = 2 := by rw [pow2_eq_zpow]; norm_num
+        rw [this, ← hb']; ring
+      rw [h2]
+      apply repr_of_multiple n (q + 1) hnpos
+      rw [← h2]
+      obtain ⟨s1, s2⟩ := floorLog2_spec b hb
+      have hfl : floorLog2 (2 * b) = e + 1 := by
+        apply floorLog2_unique
+        · have : pow2 (e + 1) = 2 * pow2 e := by
+            rw [pow2_add]; have : pow2 1 = 2 := by rw [pow2_eq_zpow]; norm_num
+            rw [this]; ring
+          rw [this]; linarith
+        · have : pow2 (e + 1 + 1) = 2 * pow2 (e + 1) := by
+            rw [pow2_add (e + 1) 1]; have : pow2 1 = 2 := by rw [pow2_eq_zpow]; norm_num
+            rw [this]; ring
+          rw [this]; linarith
+      rw [hfl]
+      exact qexp_succ_le e
+    have := repr_neg (key (-a) hpos hn)
+    have h2 : -(2 * -a) = 2 * a := by ring
+    rwa [h2] at this
+  · subst ha; simpa using repr_zero
+  · have hb' := h
+    unfold Repr at hb'
+    rw [roundF32_pos a ha] at hb'
+    set e := floorLog2 a with he
+    set q := qexp e with hq
+    set n := roundHalfEven (a / pow2 q) with hn'
+    have hqpos := pow2_pos q
+    have hnpos : 0 < n := by
+      by_contra hc
+      have : (n : ℚ) ≤ 0 := by exact_mod_cast (not_lt.mp hc)
+      have : (n : ℚ) * pow2 q ≤ 0 := mul_nonpos_of_nonpos_of_nonneg this (le_of_lt hqpos)
+      linarith
+    have h2 : 2 * a = (n : ℚ) * pow2 (q + 1) := by
+      rw [pow2_add]
+      have : pow2 1 = 2 := by rw [pow2_eq_zpow]; norm_num
+      rw [this, ← hb']; ring
+    rw [h2]
+    apply repr_of_multiple n (q + 1) hnpos
+    rw [← h2]
+    obtain ⟨s1, s2⟩ := floorLog2_spec a ha
+    have hfl : floorLog2 (2 * a) = e + 1 := by
+      apply floorLog2_unique
+      · have : pow2 (e + 1) = 2 * pow2 e := by
+          rw [pow2_add]; have : pow2 1 = 2 := by rw [pow2_eq_zpow]; norm_num
+          rw [this]; ring
+        rw [this]; linarith
+      · have : pow2 (e + 1 + 1) = 2 * pow2 (e + 1) := by
+          rw [pow2_add (e + 1) 1]; have : pow2 1 = 2 := by rw [pow2_eq_zpow]; norm_num
+          rw [this]; ring
+        rw [this]; linarith
+    rw [hfl]
+    exact qexp_succ_le e
+
+/-- **the float midpoint of two binary32 values lies between them** (`(a + b) / 2` computed as the C code does,
+with both operations rounded) -/
+theorem midpoint_between (a b : Rat) (hab : a ≤ b) (ha : Repr a) (hb : Repr b) :
+    a ≤ roundF32 (roundF32 (a + b) / 2) ∧ roundF32 (roundF32 (a + b) / 2) ≤ b := by
+  have h2a := repr_two_mul ha
+  have h2b := repr_two_mul hb
+  unfold Repr at ha hb h2a h2b
+  have hs1 : 2 * a ≤ roundF32 (a + b) := by
+    have := roundF32_mono (2 * a) (a + b) (by linarith)
+    rwa [h2a] at this
+  have hs2 : roundF32 (a + b) ≤ 2 * b := by
+    have := roundF32_mono (a + b) (2 * b) (by linarith)
+    rwa [h2b] at this
+  constructor
+  · have := roundF32_mono a (roundF32 (a + b) / 2) (by linarith)
+    rwa [ha] at this
+  · have := roundF32_mono (roundF32 (a + b) / 2) b (by linarith)
+    rwa [hb] at this
+
 end Sb.Proofs
